@@ -60,7 +60,7 @@ func rulesC08(w *World, r *Report) {
 	w.ruleWrapperForwards(r, "C08.R3 read wrappers forward the decoder", "double")
 	w.ruleDecoderInverts(r, "C08.R5 the decoder rebuilds the encoded number bit for bit", "double")
 	w.ruleFloatKinds(r, "C08.R3 float kinds use the double codec on both sides")
-	w.ruleNoValueRejection(r, "C08.R4 the float field reader rejects nothing but a failed read", []string{"Float32", "Float64"})
+	w.ruleNoValueRejectionPX(r, "C08.R4 the float field reader rejects nothing but a failed read", []string{"Float32", "Float64"})
 	includeIf(w, r, "C01", "every first octet of a double form reaches the double reader in every dispatcher", 4, func(o *Obligation) bool {
 		return strings.Contains(o.Key, "C01.R2") && strings.HasSuffix(o.Key, "emitted by double")
 	})
@@ -126,8 +126,23 @@ func (w *World) ruleKindNarrowing(r *Report, rule string) {
 				cnt[nm]++
 				key := fmt.Sprintf("%s · conversion %s #%d", fnName(wd), nm, cnt[nm])
 				src, _ := f.ValueAt(cv.X, b)
-				_, changed := src.wrap(tb, tsig)
 				kinds := f.kindsAt(b)
+				// the kinds that reach the conversion according to the per-kind explorations
+				// of the dispatch (kindcensus.go): a leaf function behind a table, a bit test
+				// over the kind, a helper — both sources over-approximate, so they intersect
+				if tk := f.term(cv.X).Key(); !(strings.Contains(tk, "(reflect.Value).Int(") || strings.Contains(tk, "(reflect.Value).Uint(")) {
+					// not a reflected integer: other kinds (a slice fast path) may bring it here
+				} else if cs := w.censusOf(wd0, "enc", cv); cs.ok {
+					if kinds == nil {
+						kinds = cs.kinds
+					} else {
+						kinds = intersectNames(kinds, cs.kinds)
+					}
+					if cs.src != nil && src != nil {
+						src = src.Intersect(cs.src)
+					}
+				}
+				_, changed := src.wrap(tb, tsig)
 				switch {
 				case !changed && tb < sb && func() bool { p, _ := w.refusesRepresentable(cv, f, tb, tsig); return p != "" }():
 					pos, set := w.refusesRepresentable(cv, f, tb, tsig)
@@ -280,6 +295,11 @@ func (w *World) decoderInverts(kinds []string, enc *ssa.Convert) (bool, string) 
 					found = true
 				}
 			}
+		}
+		if !found {
+			// the branch of the kind may be a function reached through a table of
+			// field readers: the paths of the kind are what counts
+			found = w.convOnKindPaths(rf, kindByName[k], wantSrc, wantDst)
 		}
 		if !found {
 			return false, fmt.Sprintf("readField has no %s(%s) conversion on the branch of kind %s", wantDst, wantSrc, k)
